@@ -301,6 +301,15 @@ fn itype_of(op: &Op) -> Result<InodeType, String> {
 fn get_root<'a>(st: &'a mut State, op: &Op) -> Result<&'a Root, Obs> {
     let key = op.root.clone().ok_or_else(|| harness_err("op needs root".into()))?;
     if !st.roots.contains_key(&key) {
+        if let Some(path) = key.strip_prefix("rdonly:") {
+            // a Root wrapped around a caller-supplied O_RDONLY directory descriptor (Root::from_fd)
+            let c = cstr(path);
+            let fd = unsafe { libc::open(c.as_ptr(), libc::O_RDONLY | libc::O_DIRECTORY | libc::O_CLOEXEC) };
+            if fd < 0 { return Err(harness_err(format!("open {} failed", path))); }
+            st.roots.insert(key.clone(), Root::from_fd(unsafe { OwnedFd::from_raw_fd(fd) }));
+        }
+    }
+    if !st.roots.contains_key(&key) {
         match Root::open(&key) {
             Ok(r) => { st.roots.insert(key.clone(), r); }
             Err(e) => return Err(harness_err(format!("Root::open({}) failed: {}", key, e))),
